@@ -558,6 +558,47 @@ func gen(seed uint64, tier string) {
 		k := []string{"lcc", "tmerc", "aea", "merc", "eqdc", "geog"}[i%6]
 		fmt.Fprintf(w, "prjcrs %d %s\n", n, strings.Join(strings.Fields(crsTokens(r, k))[:16], " "))
 	}
+	// layers whose NAME the .prj path is derived from: dots in the base name, in a directory, leading / trailing dots, blanks,
+	// an inner ".shp"/".prj", given with and without the extension and through a "sub.d/.." detour; every layer sits among
+	// decoy .prj files (the dot-prefixes of its name, <name>.shp.prj, ...) that hold ANOTHER reference
+	prjNames := []string{"roads", "zones.v2", "tl_2019.06", "a.b.c", "dir.v1/roads", "dir.v1/roads.2020", ".hidden", "layer.", "a..b",
+		"v1.0/data.set/layer.name.here", "name.prj", "name.shp", "my layer.v2 final", "x.y/.z", "UPPER.SHP", "1.5", "..a", "a.tar.gz",
+		"deep/er/still.deeper/l.1", "utm.zone.32N.etrs89"}
+	wkts := rawCorpus[len(rawCorpus)-20:]
+	for i, n := range prjNames {
+		calls := []string{"ext", "noext", "dotdot"}
+		if strings.HasSuffix(n, ".shp") { // NewDecoder("name.shp") means the layer "name": only the spelling with extension
+			calls = []string{"ext", "dotdot"}
+		}
+		for j, c := range calls {
+			fmt.Fprintf(w, "prjn %s %s %s %s\n", hx(n), c, hx(wkts[(3*i+j)%len(wkts)]), hx(wkts[(3*i+j+7)%len(wkts)]))
+		}
+		fmt.Fprintf(w, "prjn %s ext %s -\n", hx(n), hx(wkts[(5*i)%len(wkts)])) // no decoys: a wrong path finds no file
+		k := []string{"lcc", "tmerc", "aea", "merc", "eqdc", "geog"}
+		fmt.Fprintf(w, "prjncrs %s %s %s | %s\n", hx(n), calls[i%len(calls)], strings.Join(strings.Fields(crsTokens(r, k[i%6]))[:16], " "),
+			strings.Join(strings.Fields(crsTokens(r, k[(i+1)%6]))[:16], " "))
+	}
+	nName := 20
+	if tier == "thorough" {
+		nName = 400
+	}
+	for i := 0; i < nName; i++ { // random names: 1-4 segments joined by dots, sometimes in a dotted directory
+		segs := []string{"zones", "v2", "2019", "06", "final", "tl", "x", "shp", "prj", "N", "etrs89", "0", "data set"}
+		n := segs[r.Intn(len(segs))]
+		for j := r.Intn(4); j > 0; j-- {
+			n += "." + segs[r.Intn(len(segs))]
+		}
+		if r.Intn(3) == 0 {
+			n = segs[r.Intn(len(segs))] + "." + segs[r.Intn(len(segs))] + "/" + n
+		}
+		calls := []string{"ext", "noext", "dotdot"}
+		if strings.HasSuffix(n, ".shp") {
+			calls = []string{"ext", "dotdot"}
+		}
+		k := []string{"lcc", "tmerc", "aea", "merc", "eqdc", "geog"}
+		fmt.Fprintf(w, "prjncrs %s %s %s | %s\n", hx(n), calls[r.Intn(len(calls))], strings.Join(strings.Fields(crsTokens(r, k[r.Intn(6)]))[:16], " "),
+			strings.Join(strings.Fields(crsTokens(r, k[r.Intn(6)]))[:16], " "))
+	}
 	nCrs, nMut := 1500, 1200
 	if tier == "thorough" {
 		nCrs, nMut = 40000, 30000
